@@ -10,6 +10,7 @@ import (
 
 	"falcosim/sim/simfs"
 	"falcosim/sim/simmap"
+	"falcosim/sim/vclgen"
 	"falcosim/sim/worker"
 
 	"github.com/ysugimoto/falco/v2/config"
@@ -34,11 +35,12 @@ type decl struct {
 }
 
 type lintProgram struct {
-	decls   []decl
-	modules map[string]string
-	desc    string
-	funcs   []string
-	dupSub  bool // two declarations of the same user subroutine: which one wins is order-dependent by definition
+	decls        []decl
+	modules      map[string]string
+	desc         string
+	funcs        []string
+	dupLifecycle bool
+	dupSub       bool // two declarations of the same user subroutine: which one wins is order-dependent by definition
 }
 
 var scopeVars = map[string][]string{
@@ -54,7 +56,7 @@ func genStatements(c *worker.Ctx, p *lintProgram, scope string, users []string, 
 	n := 1 + c.T.Draw(4)
 	vars := scopeVars[scope]
 	for i := 0; i < n; i++ {
-		switch c.T.Draw(16) {
+		switch c.T.Draw(19) {
 		case 0:
 			fmt.Fprintf(&b, "  set %s = \"v\";\n", vars[c.T.Draw(len(vars))])
 		case 1:
@@ -102,11 +104,39 @@ func genStatements(c *worker.Ctx, p *lintProgram, scope string, users []string, 
 			if len(p.funcs) > 0 {
 				fmt.Fprintf(&b, "  if (%s(req.http.X-A)) { set req.http.X-A = \"f\"; }\n", p.funcs[c.T.Draw(len(p.funcs))])
 			}
+		case 15:
+			// statements with absent optional parts, and odd but legal forms
+			b.WriteString([]string{"  error;\n", "  error 700;\n", "  error 700 \"m\";\n", "  error req.http.X-A;\n", "  restart;\n", "  esi;\n", "  return;\n", "  synthetic \"s\";\n", "  synthetic.base64 \"cw==\";\n", "  log \"l\";\n", "  unset req.http.X-A;\n", "  remove req.http.X-A;\n", "  add req.http.X-A = \"a\";\n", "  switch (req.http.X-A) {\n  case \"a\":\n    esi;\n    break;\n  default:\n    break;\n  }\n"}[c.T.Draw(14)])
+		case 16, 17:
+			// variables by name: every shape of dotted path the name tables know, and some they do not
+			v := oddVars[c.T.Draw(len(oddVars))]
+			switch c.T.Draw(5) {
+			case 0:
+				fmt.Fprintf(&b, "  set req.http.X-A = %s;\n", v)
+			case 1:
+				fmt.Fprintf(&b, "  if (%s) { esi; }\n", v)
+			case 2:
+				fmt.Fprintf(&b, "  set %s = \"x\";\n", v)
+			case 3:
+				fmt.Fprintf(&b, "  unset %s;\n", v)
+			default:
+				fmt.Fprintf(&b, "  log %s;\n", v)
+			}
 		default:
-			fmt.Fprintf(&b, "  if (req.http.X-A !~ \"x(y)\") { set req.http.X-A = \"n\"; }\n")
+			fmt.Fprintf(&b, "  if (req.http.X-A !~ \"%s\") { set req.http.X-A = \"n\"; }\n", []string{"x(y)", "^/api/(?", "(?:a)(b)", "(?<n>a)", "(?P<n>a)(", "a)", "[(]", "\\\\(a\\\\)", "(?i)(a)|(b)", "((((", ""}[c.T.Draw(11)])
 		}
 	}
 	return b.String()
+}
+
+var oddVars = []string{
+	"ratecounter.rc_0.bucket.10s", "ratecounter.rc_0.rate.60s", "ratecounter.rc_0.foo.10s", "ratecounter.rc_0.bucket.99s", "ratecounter.rc_0.bucket", "ratecounter.rc_0", "ratecounter.nosuch.bucket.10s", "ratecounter.rc_0.bucket.10s.x",
+	"backend.F_b0.healthy", "backend.F_b0.connections_open", "backend.nosuch.healthy", "backend.F_b0.nosuch", "backend.F_b0", "director.F_b0.healthy", "director.nosuch.healthy",
+	"req.http", "req.http.X-A:sub", "req.http.X-A:a:b", "req.http.Cookie:k", "beresp.http.X-B", "bereq.http.X-E", "obj.http.X-D", "resp.http.X-C",
+	"var.undeclared", "var", "re.group.0", "re.group.10", "re.group.11", "re.group.x", "re.group", "table.tbl_0", "tbl_0", "acl_0", "F_b0",
+	"tls.client.cipher", "tls.client.nosuch", "fastly.ff.visits_this_service", "fastly_info.state", "math.PI", "math.NOSUCH", "client.geo.city", "client.geo.nosuch", "client.as.number",
+	"now", "now.sec", "time.start.msec", "req.url.path", "req.url.ext", "req.url.nosuch", "req.url.path.x", "req", "beresp", "obj", "resp", "server.identity", "workspace.bytes_free", "waf.executed", "segmented_caching.block_number",
+	"req.backend.healthy", "req.backend.name", "req.backend", "beresp.backend.name", "client.identity", "req.hash", "req.hash_always_miss", "esi.allow_inside_cdata", "quic.cc.cwnd", "transport.type",
 }
 
 func genProgram(c *worker.Ctx) *lintProgram {
@@ -184,6 +214,13 @@ func genProgram(c *worker.Ctx) *lintProgram {
 		ret := map[string]string{"recv": "  return(lookup);\n", "fetch": "  return(deliver);\n", "deliver": "  return(deliver);\n", "error": "  return(deliver);\n"}[s]
 		add("sub", fmt.Sprintf("sub vcl_%s {\n%s%s%s}\n", s, macro, genStatements(c, p, s, users, 2), ret))
 	}
+	// a second declaration of a lifecycle subroutine, with its own calls
+	// (legal: the bodies are concatenated)
+	if c.T.Bool(1, 6) {
+		s := []string{"recv", "fetch", "deliver"}[c.T.Draw(3)]
+		add("sub", fmt.Sprintf("sub vcl_%s {\n%s}\n", s, genStatements(c, p, s, users, 1)))
+		p.dupLifecycle = true
+	}
 	// include graph; module names are written with or without the .vcl extension
 	ext := func() string {
 		if c.T.Bool(1, 2) {
@@ -191,7 +228,21 @@ func genProgram(c *worker.Ctx) *lintProgram {
 		}
 		return ""
 	}
-	switch c.T.Draw(8) {
+	switch c.T.Draw(11) {
+	case 8:
+		// the include sits inside a nested block of the module it names
+		p.desc = "include:nested-self"
+		p.modules["m0"] = "if (req.http.X-A) {\n  include \"m0" + ext() + "\";\n}\nset req.http.X-A = \"m\";\n"
+		add("sub", "sub inc_user {\n  include \"m0"+ext()+"\";\n}\n")
+	case 9:
+		p.desc = "include:nested-cycle2"
+		p.modules["m0"] = "if (req.http.X-A) {\n  if (req.http.X-A == \"b\") {\n    include \"m1" + ext() + "\";\n  }\n}\n"
+		p.modules["m1"] = "if (req.http.X-A) {\n  include \"m0" + ext() + "\";\n} else {\n  include \"m1" + ext() + "\";\n}\n"
+		add("sub", "sub inc_user {\n  if (req.http.X-A) {\n    include \"m0"+ext()+"\";\n  }\n}\n")
+	case 10:
+		p.desc = "include:twice-no-cycle"
+		p.modules["m0"] = "set req.http.X-A = \"m\";\n"
+		add("sub", "sub inc_user {\n  include \"m0"+ext()+"\";\n  if (req.http.X-A) {\n    include \"m0"+ext()+"\";\n  }\n}\n")
 	case 0:
 		p.desc = "include:missing"
 		add("other", "include \"nope\";\n")
@@ -358,8 +409,68 @@ func clip(s string, n int) string {
 	return s
 }
 
+// runC11Grammar lints a program from the grammar-wide generator (every node
+// kind, well-typed or not): oracles T and D.
+func runC11Grammar(c *worker.Ctx) {
+	res := c.Res
+	o := vclgen.Default()
+	o.Comments = c.T.Bool(1, 4)
+	src := vclgen.Program(c.T, o)
+	orderFor := func(kind int) simmap.Order {
+		if kind == 0 {
+			return func(n int) []int {
+				out := make([]int, n)
+				for i := range out {
+					out[i] = i
+				}
+				return out
+			}
+		}
+		return func(n int) []int { return c.T.Perm(n) }
+	}
+	base := lintOnce(src, nil, orderFor(0))
+	res.Sig = fmt.Sprintf("grammar|%x|%d", hash(src), len(base.diags))
+	res.Nontrivial = true
+	if strings.HasPrefix(base.fatal, "parse:") {
+		res.Probe("grammar_program_unparseable")
+		return
+	}
+	res.Probe("grammar_program_linted")
+	report := func(o lintOutcome, how string) bool {
+		switch {
+		case o.panicV != nil:
+			res.Violate("C11/T-total", "C11/panic:"+o.stack+":"+clip(fmt.Sprint(o.panicV), 60), fmt.Sprintf("linter panicked (%s): %v\nprogram (grammar-wide generator):\n%s", how, o.panicV, src))
+			return true
+		case o.spin:
+			res.Violate("C11/T-total", "C11/unbounded-include:grammar:"+o.stack, fmt.Sprintf("linting does not terminate (%s)\nprogram:\n%s", how, src))
+			return true
+		}
+		return false
+	}
+	if report(base, "sorted map order") {
+		return
+	}
+	for r := 1; r <= 2; r++ {
+		o := lintOnce(src, nil, orderFor(r))
+		if report(o, fmt.Sprintf("map order #%d", r)) {
+			return
+		}
+		if d := multisetDiff(o.diags, base.diags); d != "" {
+			res.Violate("C11/D-deterministic", "C11/order-dependent:"+ruleOf(d), fmt.Sprintf("diagnostics depend on Go's map iteration order (order #%d vs sorted):\n    %s\nprogram:\n%s", r, d, src))
+			return
+		}
+	}
+	if c.Render {
+		res.Rendering = map[string]any{"program": src, "generator": "grammar-wide", "diagnostics": len(base.diags)}
+	}
+}
+
 func runC11(c *worker.Ctx) {
 	res := c.Res
+	if c.T.Bool(1, 5) {
+		runC11Grammar(c)
+		return
+	}
 	p := genProgram(c)
 	identity := make([]int, len(p.decls))
 	for i := range identity {
